@@ -1,23 +1,30 @@
 """C23 dependency queries and C25 gc: GraphQueries.tla, G->I into query.Deps / query.ReverseDeps / query.SomePath
 and gc's targetsToRemove (verif export), all in-process on real core.BuildGraphs."""
+import copy
+import json
+import os
+import shutil
+import subprocess
+
 import vlib
 from engines import register
 
 QINV = "UpperBound UnlimitedExact NoHiddenExactWindow Monotone SomePathOK SomePathMultiOK EmitQ"
-GINV = "GcModelSafe GcModelClosed EmitGc"
+GINV = "GcModelSafe GcSiblingOnly GcModelClosed EmitGc"
 
 
-def cfg_text(n, maxhidden, provides, upper, emit, spec, invs, k=1, i=0):
-    return ("CONSTANTS N = %d\n MaxHidden = %d\n Provides = %s\n Upper = %s\n EmitMode = \"%s\"\n SliceK = %d\n SliceI = %d\n"
-            "SPECIFICATION %s\nINVARIANTS %s\nCHECK_DEADLOCK FALSE\n"
-            % (n, maxhidden, "TRUE" if provides else "FALSE", "TRUE" if upper else "FALSE", emit, k, i, spec, invs))
+def cfg_text(n, maxhidden, provides, upper, emit, spec, invs, k=1, i=0, siblings=False, minhidden=0, focus="all"):
+    return ("CONSTANTS N = %d\n MaxHidden = %d\n Provides = %s\n Upper = %s\n EmitMode = \"%s\"\n Siblings = %s\n"
+            " MinHidden = %d\n Focus = \"%s\"\n SliceK = %d\n SliceI = %d\nSPECIFICATION %s\nINVARIANTS %s\nCHECK_DEADLOCK FALSE\n"
+            % (n, maxhidden, "TRUE" if provides else "FALSE", "TRUE" if upper else "FALSE", emit,
+               "TRUE" if siblings else "FALSE", minhidden, focus, k, i, spec, invs))
 
 
-def gen(ctx, name, **kw):
+def gen(ctx, name, allow_violation=False, **kw):
     """Runs one GEN configuration (written on the fly so that slices can follow the seed); returns its cases."""
     r = vlib.tlc(ctx, "GraphQueries", name, files={name: cfg_text(**kw)}, timeout=3000, workers=8,
-                 java_opts=["-XX:ParallelGCThreads=4"])
-    return r.cases
+                 java_opts=["-XX:ParallelGCThreads=4"], allow_violation=allow_violation)
+    return r if allow_violation else r.cases
 
 
 def bits(m):
@@ -25,8 +32,8 @@ def bits(m):
 
 
 def graph_key(c):
-    return "n%d p%s d%s v%s r%s u%d %s" % (c["n"], c["par"], c["decl"], c.get("prov"), c.get("req"), int(bool(c.get("up"))),
-                                         c.get("role", ""))
+    return "n%d p%s d%s v%s r%s u%d %s %s" % (c["n"], c["par"], c["decl"], c.get("prov"), c.get("req"), int(bool(c.get("up"))),
+                                            c.get("role", ""), c.get("sib", ""))
 
 
 # ------------------------------------------------------------------------------------------------ C23
@@ -38,20 +45,22 @@ CLAIM23 = dict(
          "with free family edges / families as single nodes) and from them the window [must, may] of targets that `deps`/`revdeps` "
          "at level L may print, plus reachability for `somepath`; and algorithm-level models of deps.go (DFS, shared done map), "
          "reverse_deps.go (FIFO, dedup on push, 0/1 costs) and somepath.go (DFS, per-destination shared seen). TLC enumerates every "
-         "labelled DAG on <=4 (quick) / a seeded slice of <=5 (thorough) targets x every assignment of hidden sub-targets "
-         "(x require/provide x naming order on 3 targets), checks the facts that hold of the models as invariants and emits, per "
+         "labelled DAG on 3 targets and on 4 targets (quick: a seeded half of the 4-target DAGs with at most one hidden sub-target; "
+         "thorough: all, plus seeded slices on 5 targets), three hand-picked 5-target witnesses, x every assignment of hidden sub-targets (x require/provide x naming order on 3 targets), checks the facts that hold of the models as invariants and emits, per "
          "graph, the windows and every query where a model leaves its window. Every graph is rebuilt as a real core.BuildGraph and "
          "the real query.Deps, query.ReverseDeps and query.SomePath are run for every source, level (-1, 0..N-2), --hidden setting "
          "and ordered pair; the verdict is the window / reachability + genuine-path relation, never equality with the model.",
     note="Weakest reading, stated in the evidence: without --hidden the own rule is optional and a target counts as required only if "
          "it is within L by directed paths, as allowed if within L with families collapsed; with --hidden required within L counting "
          "every edge, allowed within L with free family edges. Graphs where a hidden sub-target depends on its own rule are outside "
-         "the domain. Known finding: deps misses targets at limited levels (first visit deeper). Exhaustive only within the bounds; "
+         "the domain. Known findings: deps (first visit deeper) and revdeps (first push deeper) miss targets at limited levels. Thorough also replays "
+         "a sample through the real `plz query` binary. Exhaustive only within the bounds; "
          "trusted: TLC, JSON decoding, the harness's graph construction and label parsing.",
     technique="TLA+ spec GraphQueries.tla model-checked with TLC; TLC-enumerated cases with spec-computed expectations replayed "
               "into the real query functions")
 
 SIG_DEPS_KNOWN = "C23 deps level-cutoff first-visit-deeper"
+SIG_REV_KNOWN = "C23 revdeps level-cutoff first-push-deeper"
 
 
 def judge_queries(ctx, cases, obs):
@@ -81,10 +90,17 @@ def judge_queries(ctx, cases, obs):
                                 continue
                             p = predicted.get((kind, bool(h), s + 1, L))
                             q = dict(kind=kind, hidden=bool(h), s=s + 1, level=L, must=bits(must), may=bits(may), printed=bits(m))
-                            if p is not None and p["algo"] == m:
+                            # revdeps finds hidden sub-targets by walking a Go map: with >=2 of them the order (and the
+                            # exact set lost) may differ from the model's sorted order while the flaw is the same
+                            same_flaw = p is not None and (p["algo"] == m or (
+                                kind == "rev" and p["cls"] == "miss" and not extra
+                                and sum(1 for x in c["par"] if x == s + 1) >= 2))
+                            if same_flaw:
                                 confirmed.add((kind, bool(h), s + 1, L))
                                 if kind == "deps" and miss and not extra and L != -1:
                                     sig = SIG_DEPS_KNOWN
+                                elif kind == "rev" and miss and not extra and L != -1 and not h:
+                                    sig = SIG_REV_KNOWN
                                 else:
                                     sig = "C23 %s %s as the algorithm model predicts (hidden=%s)" % (
                                         kind, "misses a target within the level" if miss else "prints a target beyond the level", bool(h))
@@ -183,21 +199,48 @@ def run23(ctx):
     if ctx.replay_only is not None:
         cases = [d["case"] for d in ctx.replay_only]
     else:
-        cases = gen(ctx, "GEN_GraphQueries_3full.cfg", n=3, maxhidden=3, provides=True, upper=True, emit="all", spec="SpecQ", invs=QINV)
+        base = dict(provides=False, upper=False, emit="all", spec="SpecQ", invs=QINV)
+        cases = gen(ctx, "GEN_GraphQueries_3full.cfg", n=3, maxhidden=3, **dict(base, provides=True, upper=True))
+        cases += gen(ctx, "GEN_GraphQueries_witness.cfg", n=5, maxhidden=4, **dict(base, spec="SpecW"))
         if ctx.quick:
-            cases += gen(ctx, "GEN_GraphQueries_4h1.cfg", n=4, maxhidden=1, provides=False, upper=False, emit="all", spec="SpecQ", invs=QINV)
+            # half of the 543 labelled DAGs on 4 targets (which half follows the seed) x at most one hidden sub-target
+            cases += gen(ctx, "GEN_GraphQueries_4h1.cfg", n=4, maxhidden=1, k=2, i=ctx.seed % 2, **base)
         else:
-            cases += gen(ctx, "GEN_GraphQueries_4.cfg", n=4, maxhidden=4, provides=False, upper=False, emit="all", spec="SpecQ", invs=QINV)
-            k = 97
-            cases += gen(ctx, "GEN_GraphQueries_4up.cfg", n=4, maxhidden=2, provides=True, upper=True, emit="all", spec="SpecQ",
-                         invs=QINV, k=7, i=ctx.seed % 7)
-            cases += gen(ctx, "GEN_GraphQueries_5s.cfg", n=5, maxhidden=2, provides=False, upper=False, emit="all", spec="SpecQ",
-                         invs=QINV, k=k, i=ctx.seed % k)
+            cases += gen(ctx, "GEN_GraphQueries_4.cfg", n=4, maxhidden=4, **base)
+            cases += gen(ctx, "GEN_GraphQueries_4up.cfg", n=4, maxhidden=2, k=13, i=ctx.seed % 13, **dict(base, provides=True, upper=True))
+            cases += gen(ctx, "GEN_GraphQueries_5s.cfg", n=5, maxhidden=2, k=97, i=ctx.seed % 97, **base)
+            # the wide search for the revdeps FIFO flaw: 5 targets, exactly one hidden, only the revdeps queries,
+            # only the graphs where the model leaves its window are emitted (and replayed)
+            cases += gen(ctx, "GEN_GraphQueries_5rev.cfg", n=5, maxhidden=1, minhidden=1, focus="rev", k=11, i=ctx.seed % 11,
+                         **dict(base, emit="diff"))
+            # design level: TLC must refute "the models stay inside the window" (the recorded flaws); if it no longer
+            # does, the spec's models have drifted from the recorded findings
+            r = gen(ctx, "MC_GraphQueries_flaw.cfg", allow_violation=True, n=4, maxhidden=0,
+                    **dict(base, emit="none", invs="AllInWindow"))
+            ctx.extra["design_counterexample_AllInWindow"] = "found" if r.invariant else "NOT FOUND"
+            if not r.invariant:
+                ctx.drift("TLC no longer refutes AllInWindow on 4 targets: the deps model lost the recorded flaw")
         ctx.exhaustive = True
     for i, c in enumerate(cases):
         c["id"] = i
     obs = vlib.run_vh(ctx, "queries", cases, timeout=3000)
     n_q = judge_queries(ctx, cases, obs)
+    if ctx.replay_only is None and not ctx.quick:
+        # binding self-test on a scratch copy: a deliberately wrong expectation must be reported
+        t = vlib.Ctx(ctx.prop, ctx.tier, ctx.seed, ctx.level)
+        try:
+            bad = copy.deepcopy(next(c for c in cases if len(c["decl"]) >= 2 and not c["diffs"]))
+            e = bad["decl"][0]
+            bad["expect"]["deps"][1][e[0] - 1][0] = [0, 0]          # claims that e[0] has no dependencies at all
+            judge_queries(t, [bad], obs)
+            ctx.extra["binding_selftest"] = "rejected" if t.violations else "NOT REJECTED"
+            if not t.violations:
+                raise vlib.Infra("binding self-test: a corrupted expectation was not reported")
+        finally:
+            t.cleanup()
+        sub, eobs = e2e_queries(ctx, cases, 6)
+        n_q += judge_queries(ctx, sub, eobs)
+        ctx.extra["e2e_graphs_through_plz_query"] = len(sub)
     ctx.traces_validated = n_q
     ctx.extra["graphs"] = len(cases)
     ctx.extra["model_disagreements"] = sum(1 for c in cases if c.get("diffs"))
@@ -218,12 +261,13 @@ CLAIM25 = dict(
          "conservative on/off. Verdict: proposed targets are disjoint from MustKeep and no proposed source is used by a MustKeep target.",
     note="Weakest reading: 'test of a kept target' is one level, not a fixpoint, and ignores test-only dependencies; the same MustKeep "
          "is required in conservative mode. A hidden sub-target kept while its (unkept) parent rule is proposed is not counted (the "
-         "statement speaks of proposed targets). gc_sibling labels, filters, subrepos and require/provide are outside the generated "
-         "domain. In-process (verif export of targetsToRemove), not through `plz gc --dry_run`.",
+         "statement speaks of proposed targets). At most one gc_sibling label; filters, subrepos and require/provide are outside the "
+         "generated domain. In-process (verif export of targetsToRemove), not through `plz gc --dry_run`.",
     technique="TLA+ spec GraphQueries.tla (gc section) model-checked with TLC; TLC-enumerated cases with spec-computed MustKeep "
               "replayed into the real targetsToRemove")
 
 MECHS = ["kept-label", "gc.keep", "subinclude"]
+SIG_SIBLING = "C25 gc_sibling: a needed target shares the fate of its unneeded sibling"
 
 
 def judge_gc(ctx, cases, obs):
@@ -242,7 +286,10 @@ def judge_gc(ctx, cases, obs):
                     raise vlib.Infra("harness could not parse gc output for %s" % graph_key(c))
                 q = dict(marked_by=MECHS[mi], conservative=bool(ci), removed=bits(r["removed"]), srcs=r["srcs"], mustkeep=bits(mk))
                 hit = r["removed"] & mk
-                if hit:
+                sibs = c.get("sib") or []
+                if hit and all(t <= len(sibs) and sibs[t - 1] for t in bits(hit)) and r["removed"] == c["algo"][ci]["removed"]:
+                    bad.append((SIG_SIBLING, q))
+                elif hit:
                     roots = c["expect"]["roots"]
                     what = "a kept root itself" if hit & roots else "a dependency of a kept root"
                     testy = any(c["role"][t - 1] == "test" for t in bits(hit & roots))
@@ -273,7 +320,7 @@ def run25(ctx):
         "dependencies is in the closure of the former and is not test-only: one level, not a fixpoint (weakest reading)",
         "tests are binaries and test_only (as build_rule makes them); the same MustKeep is required with --conservative",
         "only proposed targets are judged: a rule proposed for removal whose hidden sub-target is needed is not counted",
-        "no gc_sibling labels, filters, subrepos or require/provide in the generated graphs",
+        "at most one gc_sibling label; no filters, subrepos or require/provide in the generated graphs",
     ]
     if ctx.replay_only is not None:
         cases = [d["case"] for d in ctx.replay_only]
@@ -282,16 +329,197 @@ def run25(ctx):
             # half of the 25 labelled DAGs on 3 targets (which half follows the seed); all of them in the thorough tier
             cases = gen(ctx, "GEN_GraphGc_3.cfg", n=3, maxhidden=3, provides=False, upper=False, emit="all", spec="SpecGc", invs=GINV,
                         k=2, i=ctx.seed % 2)
+            # gc_sibling labels (one labelled target, no hidden sub-targets), a sixth of the DAGs
+            cases += gen(ctx, "GEN_GraphGc_3sib.cfg", n=3, maxhidden=0, provides=False, upper=False, emit="all", spec="SpecGc",
+                         invs=GINV, k=6, i=ctx.seed % 6, siblings=True)
         else:
             cases = gen(ctx, "GEN_GraphGc_3u.cfg", n=3, maxhidden=3, provides=False, upper=True, emit="all", spec="SpecGc", invs=GINV)
             k = 29
             cases += gen(ctx, "GEN_GraphGc_4s.cfg", n=4, maxhidden=2, provides=False, upper=False, emit="all", spec="SpecGc",
                          invs=GINV, k=k, i=ctx.seed % k)
+            cases += gen(ctx, "GEN_GraphGc_3sib.cfg", n=3, maxhidden=1, provides=False, upper=False, emit="all", spec="SpecGc",
+                         invs=GINV, siblings=True)
         ctx.exhaustive = True
     for i, c in enumerate(cases):
         c["id"] = i
     obs = vlib.run_vh(ctx, "gc", cases, timeout=3000)
     runs = judge_gc(ctx, cases, obs)
+    if ctx.replay_only is None and not ctx.quick:
+        t = vlib.Ctx(ctx.prop, ctx.tier, ctx.seed, ctx.level)
+        try:
+            good = next(c for c in cases if obs[c["id"]]["runs"][0][0]["removed"] and not any(c.get("sib") or []))
+            bad = copy.deepcopy(good)
+            bad["expect"]["mustkeep"] = obs[good["id"]]["runs"][0][0]["removed"]    # claims the removed targets were needed
+            judge_gc(t, [bad], obs)
+            ctx.extra["binding_selftest"] = "rejected" if t.violations else "NOT REJECTED"
+            if not t.violations:
+                raise vlib.Infra("binding self-test: a corrupted expectation was not reported")
+        finally:
+            t.cleanup()
+        sub, eobs = e2e_gc(ctx, cases, 12)
+        runs += judge_gc(ctx, sub, eobs)
+        ctx.extra["e2e_graphs_through_plz_gc"] = len(sub)
     ctx.traces_validated = runs
     ctx.extra["graphs"] = len(cases)
     ctx.extra["gc_runs"] = runs
+
+# ------------------------------------------------------------------------------------------------ e2e samples (thorough tier)
+
+def _name(c, i):
+    pre = "T" if c.get("up") else "t"
+    p = c["par"][i - 1]
+    return "_%s%d#h%d" % (pre, p, i) if p else "%s%d" % (pre, i)
+
+
+def _node(label):
+    label = label.strip()
+    if label.startswith("//p:"):
+        label = label[4:]
+    try:
+        if label.startswith("_"):
+            return int(label[label.index("#h") + 2:])
+        return int(label[1:])
+    except ValueError:
+        return 0
+
+
+def _write_repo(ctx, c, tag, gc_mech=None):
+    """Renders a case as a scratch repository of built-in rules: one package `p`, hidden sub-targets through `tag`."""
+    root = os.path.join(ctx.scratch, "e2e-%s" % tag)
+    os.makedirs(os.path.join(root, "p"))
+    home = os.path.join(root, "home")
+    os.makedirs(home)
+    cfg = "[cache]\ndir = %s\n[parse]\nnumthreads = 2\n" % os.path.join(root, "cache")
+    marked = [":" + _name(c, i) for i in range(1, c["n"] + 1) if c.get("role") and c["role"][i - 1] == "keep"]
+    if gc_mech == "kept-label":
+        cfg += "[gc]\nkeeplabel = keepme\n"
+    elif gc_mech == "gc.keep" and marked:
+        cfg += "[gc]\n" + "".join("keep = //p%s\n" % m for m in marked)
+    with open(os.path.join(root, ".plzconfig"), "w") as f:
+        f.write(cfg)
+    pre = "T" if c.get("up") else "t"
+    lines = []
+    for i in range(1, c["n"] + 1):
+        deps = [":" + _name(c, b) for a, b in c["decl"] if a == i]
+        args = ["name = %r" % (pre + str(c["par"][i - 1] or i))]
+        if c["par"][i - 1]:
+            args.append("tag = %r" % ("h%d" % i))
+        args.append("deps = %s" % json.dumps(deps))
+        role = c["role"][i - 1] if c.get("role") else "lib"
+        labels = []
+        if c.get("prov") and c["prov"][i - 1]:
+            args.append("provides = {\"l\": [%s]}" % json.dumps(":" + _name(c, c["prov"][i - 1])))
+        if c.get("req") and c["req"][i - 1]:
+            args.append("requires = [\"l\"]")
+        if role == "keep" and gc_mech == "kept-label":
+            labels.append("keepme")
+        if c.get("sib") and c["sib"][i - 1]:
+            labels.append("gc_sibling:" + _name(c, c["sib"][i - 1]))
+        if labels:
+            args.append("labels = %s" % json.dumps(labels))
+        if c.get("role"):
+            srcs = ["f_%d_%d.txt" % (min(i, j), max(i, j)) for j in range(1, c["n"] + 1) if j != i]
+            args.append("srcs = %s" % json.dumps(srcs))
+            for fn in srcs:
+                open(os.path.join(root, "p", fn), "w").close()
+        if role == "test":
+            args += ["test_cmd = \"true\"", "no_test_output = True"]
+            lines.append("gentest(%s)" % ", ".join(args))
+        else:
+            if role == "bin":
+                args.append("binary = True")
+            if role == "tolib":
+                args.append("test_only = True")
+            lines.append("filegroup(%s)" % ", ".join(args))
+    with open(os.path.join(root, "p", "BUILD"), "w") as f:
+        f.write("\n".join(lines) + "\n")
+    env = dict(HOME=home, XDG_CACHE_HOME=os.path.join(home, ".cache"), XDG_CONFIG_HOME=os.path.join(home, ".config"))
+    return root, env
+
+
+def _plz(ctx, root, env, args, ok=(0,)):
+    p = subprocess.run([vlib.build_plz(), "--plain_output", "-v", "0"] + args, cwd=root, env=dict(os.environ, **env),
+                       stdout=subprocess.PIPE, stderr=subprocess.PIPE, text=True, timeout=120)
+    if p.returncode not in ok:
+        raise vlib.Infra("plz %s failed (%d) in %s:\n%s\n%s" % (args, p.returncode, root, p.stdout[-1500:], p.stderr[-1500:]))
+    return p.stdout
+
+
+def _mask(out):
+    m = 0
+    for line in out.splitlines():
+        if line.strip().startswith("//p:"):
+            k = _node(line)
+            if not k:
+                raise vlib.Infra("cannot parse label %r" % line)
+            m |= 1 << (k - 1)
+    return m
+
+
+def e2e_queries(ctx, cases, limit):
+    """A sample of the cases through the real binary: `plz query deps|revdeps|somepath` in a generated repository."""
+    pick = [c for c in cases if c["n"] >= 3 and any(c["par"]) and c["diffs"]][:limit // 3]
+    pick += [c for c in cases if c["n"] >= 3 and any(c.get("prov") or [])][:limit // 3]
+    pick += [c for c in cases if c["n"] >= 4 and sum(1 for p in c["par"] if p) >= 2 and len(c["decl"]) >= 4][:limit - len(pick)]
+    obs, sub = {}, []
+    for k, c in enumerate(pick):
+        # two levels per case (unlimited and the one where the model disagrees, else 1) keep the number of plz runs small
+        lim = c["diffs"][0]["L"] if c["diffs"] else 1
+        idx = [c["levels"].index(-1), c["levels"].index(lim)]
+        exp = dict(c["expect"])
+        for kind in ("deps", "rev"):
+            exp[kind] = [[[row[i] for i in idx] for row in per_h] for per_h in c["expect"][kind]]
+        c = dict(c, id="e2e-%d" % k, levels=[-1, lim], expect=exp)
+        root, env = _write_repo(ctx, c, "q%d" % k)
+        n = c["n"]
+        lab = lambda i: "//p:" + _name(c, i)
+        o = dict(id=c["id"], unknown=0, deps=[], rev=[], sp=[], spall=[])
+        for h in (0, 1):
+            hf = ["--hidden"] if h else []
+            o["deps"].append([[_mask(_plz(ctx, root, env, ["query", "deps", "--level=%d" % L] + hf + [lab(s)])) for L in c["levels"]]
+                              for s in range(1, n + 1)])
+            o["rev"].append([[[_mask(_plz(ctx, root, env, ["query", "revdeps", "--level=%d" % L] + hf + [lab(s)]))] for L in c["levels"]]
+                             for s in range(1, n + 1)])
+            sp = [[[] for _ in range(n)] for _ in range(n)]
+            for a in range(1, n + 1):
+                for b in range(a + 1, n + 1):
+                    out = _plz(ctx, root, env, ["query", "somepath"] + hf + [lab(a), lab(b)], ok=(0, 1))
+                    path = ([_node(x) for x in out.splitlines()[1:] if x.strip().startswith("//p:")]
+                            if out.startswith("Found path:") else [])
+                    sp[a - 1][b - 1] = path
+                    sp[b - 1][a - 1] = path          # the same unordered question; asked once
+            o["sp"].append(sp)
+            o["spall"].append([[] for _ in range(n)])      # one-to-many is covered in-process only
+        obs[c["id"]] = o
+        sub.append(c)
+        shutil.rmtree(root, ignore_errors=True)
+    return sub, obs
+
+
+def e2e_gc(ctx, cases, limit):
+    """A sample of the cases through `plz gc --dry_run` (kept label and gc.keep; subincludes only in-process)."""
+    ok = [c for c in cases if all(not (c["par"][i] and c["role"][i] == "test") for i in range(c["n"]))]
+    pick = [c for c in ok if c["cls"] == "test-roots" and any(c["par"])][:limit // 2]
+    pick += [c for c in ok if c["cls"] == "hidden-kept" and "tolib" in c["role"]][:limit // 4]
+    pick += [c for c in ok if any(c.get("sib") or [])][:limit - len(pick)]
+    obs, sub = {}, []
+    for k, c in enumerate(pick):
+        c = dict(c, id="e2e-%d" % k)
+        runs = []
+        for mech in MECHS[:2]:
+            root, env = _write_repo(ctx, c, "g%d%s" % (k, mech[0]), gc_mech=mech)
+            per = []
+            for cons in (False, True):
+                out = _plz(ctx, root, env, ["gc", "--dry_run"] + (["--conservative"] if cons else []))
+                srcs = []
+                for line in out.splitlines():
+                    line = line.strip()
+                    if line.startswith("p/f_"):
+                        a, b = line[len("p/f_"):-len(".txt")].split("_")
+                        srcs.append([int(a), int(b)])
+                per.append(dict(removed=_mask(out), srcs=srcs, unknown=0))
+            runs.append(per)
+            shutil.rmtree(root, ignore_errors=True)
+        obs[c["id"]] = dict(id=c["id"], runs=runs)
+        sub.append(c)
+    return sub, obs
